@@ -153,7 +153,13 @@ def classify(verdict, sql, op=""):
         return ss + ":unrecognised-query-shape"
     feats = cyshape.features(q)
     for shape, need in SHAPES.get(ss, []):
-        if need <= feats:
+        # the registered pattern-predicate classes are about a predicate that reads a binding of an EARLIER clause; a MATCH that binds a
+        # path and holds a pattern predicate over its OWN bindings is a shape of its own (the path binding depends on the frame that the
+        # predicate's snapshot scope replaces) — it is deliberately not registered, so any non-ok outcome on it is a VIOLATION
+        # (single-MATCH queries without WITH / UNWIND only: with further clauses the unchanged translator already fails in ways that fall
+        # under the registered classes — path variable carried through WITH, predicate reading an earlier binding)
+        if need <= feats and not ("pattern-predicate" in need and "named-path-with-own-pattern-predicate" in feats and
+                                  not (feats & {"with", "unwind", "match-after-earlier-clause"})):
             return ss + ":" + shape
     return ss + ":unrecognised-query-shape"
 
@@ -230,9 +236,12 @@ SPEC = {
             "translator and the verified binder runs on the reflection S-expression of Result.Statement with Result.Parameters' keys and the source's updating flag; "
             "plus FOCUSED FAMILIES (harness/focused.go): minimal queries built systematically, one scoping shape each — a binding read only from the inline property map / WHERE / "
             "pattern predicate / endpoint of a later MATCH; renamings inside one WITH (fresh, identity, shadowing, swaps, rotations); variable-length step + fixed hops with every subset of "
-            "the suffix nodes already bound; aggregate-only projections with LIMIT. FINDING KEY = C03:<symptom>:<sql site>:<query shape>: symptom from the binder verdict, sql site from the "
+            "the suffix nodes already bound; aggregate-only projections with LIMIT; a NAMED PATH bound by a MATCH whose own WHERE holds a pattern predicate (incl. the patterns the "
+            "optimiser reverses), the path / nodes(p) / relationships(p) / length(p) projected afterwards, also through WITH. FINDING KEY = C03:<symptom>:<sql site>:<query shape>: symptom from the binder verdict, sql site from the "
             "position of the dangling reference in the SQL text, query shape = the first ENABLING feature set (lib/cyshape.py, table SHAPES in lib/props/c03.py) the Cypher text satisfies for "
-            "that symptom:site; a query that shows the symptom at that site without any registered enabling shape is keyed `unrecognised-query-shape`, which is never registered: VIOLATION. "
+            "that symptom:site; a query that shows the symptom at that site without any registered enabling shape is keyed `unrecognised-query-shape`, which is never registered: VIOLATION. The registered pattern-predicate shapes are about a predicate reading a binding of an EARLIER clause: a "
+            "single-MATCH query (no WITH / UNWIND / earlier clause) that binds a path variable and holds a pattern predicate over its own bindings (feature "
+            "`named-path-with-own-pattern-predicate`) is excluded from them, so a non-ok verdict there is `unrecognised-query-shape`. "
             "non-trivial = the statement has >= 2 CTE frames; distinct = distinct op lines",
     "expected_branches": ["translated", "source_updating", "gen.feat.with", "gen.feat.optional-match", "gen.feat.pattern-predicate", "gen.feat.quantifier",
                           "gen.feat.expansion", "gen.feat.path-binding", "gen.feat.multi-match", "gen.feat.unwind", "builder.v1-node", "builder.v2-rel"],
